@@ -106,13 +106,13 @@ def plan(tier, seed):
     return [{"kind": "assign", "n_assign": n_assign, "part": i, "parts": shards, "per": 40 if tier == "quick" else 80} for i in range(shards)]
 
 
-_INST = []
+_SHARED = {}
 
 
 def make_env(tokens, style="subclass"):
     """style "subclass": one subclass per assignment (the documented route).  style "instance": ONE shared class whose
     constructor takes the spellings and sets them on the instance before the base class builds its lexer - so that
-    several environments of the same class carry different spellings in one process."""
+    several environments of the same class carry different spellings in one process.  Further styles below."""
     import jsonpath
 
     ns = {ATTRS[k]: v for k, v in tokens.items()}
@@ -125,6 +125,15 @@ def make_env(tokens, style="subclass"):
         env.lexer.rules = env.lexer.compile_rules()
         env.lexer.rules = env.lexer.compile_rules()
         return env
+    if style == "class-attributes-reassigned":
+        # ONE shared class whose token attributes are assigned anew before each instantiation (earlier instances of
+        # it are not used again)
+        if "configurable" not in _SHARED:
+            _SHARED["configurable"] = type("Configurable", (jsonpath.JSONPathEnvironment,), {})
+            _SHARED["configurable"]()   # instantiated once with the default spellings
+        for k, v in ns.items():
+            setattr(_SHARED["configurable"], k, v)
+        return _SHARED["configurable"]()
     if style == "renamed-on-the-instance":
         env = jsonpath.JSONPathEnvironment()
         for k, v in ns.items():
@@ -132,15 +141,15 @@ def make_env(tokens, style="subclass"):
         env.lexer = env.lexer_class(env=env)
         env.parser = env.parser_class(env=env)
         return env
-    if not _INST:
+    if "inst" not in _SHARED:
         class InstEnv(jsonpath.JSONPathEnvironment):
             def __init__(self, **spellings):
                 for name, sp in spellings.items():
                     setattr(self, name, sp)
                 super().__init__()
-        _INST.append(InstEnv)
-        _INST.append(InstEnv(**{ATTRS[k]: v for k, v in DEFAULT_TOKENS.items()}))   # the first of its class: default spellings
-    return _INST[0](**ns)
+        _SHARED["inst"] = InstEnv
+        _SHARED["first"] = InstEnv(**{ATTRS[k]: v for k, v in DEFAULT_TOKENS.items()})   # the first of its class: default spellings
+    return _SHARED["inst"](**ns)
 
 
 def gen_compound(r):
@@ -187,7 +196,7 @@ def check_case(ctx, tokens, comp, doc, texts=None, style=None):
 
     r = ctx.rng
     ctx.evaluation()
-    style = style or r.choice(["instance", "instance", "rules-recompiled", "renamed-on-the-instance"] + ["subclass"] * 6)
+    style = style or r.choice(["instance", "instance", "rules-recompiled", "renamed-on-the-instance", "class-attributes-reassigned", "class-attributes-reassigned"] + ["subclass"] * 6)
     env = make_env(tokens, style)
     ctx.cell("environment_construction", style)
     seed = r.random()
